@@ -66,6 +66,11 @@ def spec_worker(args):
                 if got != want:
                     out["problems"].append(("generate_objects_of_size-ne-class", f"n={n} {params}: {got[:6]} vs {want[:6]}"))
                     break
+                if len(params) > 1:  # keyword arguments in another order name the same parameter values
+                    got2 = sorted(spec.generate_objects_of_size(n, **dict(reversed(list(params.items())))))
+                    if got2 != want:
+                        out["problems"].append(("generate_objects_of_size-depends-on-keyword-order", f"n={n} {params}: {got2[:6]} vs {want[:6]}"))
+                        break
         # generation interrupted part-way (an exception out of a backward map at its k-th call) and asked again
         if blob is not None and not out["problems"]:
             out["problems"] += interrupted_generation(blob, root, min(N, 4))
